@@ -589,6 +589,13 @@ def run_bins_direct(ctx):
         idx_bins = [perm[:cut], perm[cut:]]
     idx_bins = [b for b in idx_bins if b]
     bins = [np.array([tu[i] * 0.25 for i in b]) for b in idx_bins]
+    absent = bool(rng.integers(3) == 0)
+    if absent:
+        # bins defined on a standard grid that is wider than this dataset's time axis (e.g. after subset_time): a bin
+        # still averages exactly those of its time points that exist (the label of such a bin is not judged)
+        extra = [(n_t + 1 + k) * 0.25 for k in range(len(bins))]
+        bins = [np.array(list(b) + [extra[k]])[rng.permutation(len(b) + 1)] for k, b in enumerate(bins)]
+        kind += '+absent_points'
     sig = dict(op='bin_time', arg='direct_' + kind, temporal=True, shape='small')
     wit = lambda **k: dict(time_uids=tu, bins=bins, **k)  # noqa: E731
     ok, new = ctx.guarded('bin_time', sig, ds.bin_time, 'time', bins, data=wit)
@@ -600,7 +607,7 @@ def run_bins_direct(ctx):
         tus = [tu[i] for i in b]
         want = m.reshape(n_obs, n_ch, n_t)[:, :, b].mean(axis=2)
         if got.shape != (n_obs, n_ch, len(idx_bins)) or not np.allclose(got[:, :, bi], want, rtol=1e-13, atol=1e-9) or \
-                abs(float(new.time_descriptors['time'][bi]) - float(np.mean(tus)) * 0.25) > 1e-12:
+                (not absent and abs(float(new.time_descriptors['time'][bi]) - float(np.mean(tus)) * 0.25) > 1e-12):
             ctx.fail('bin_time', dict(sig, what='bin_mean'), f'bin {bi} (time uids {tus} of {tu}) is not the mean of exactly '
                      f'its time points', wit())
             return
